@@ -109,8 +109,19 @@ func c18Corpus(rg *rand.Rand, quick bool) []c18Stream {
 					parts = append(parts, kit.EncUnsubscribe(id, []string{f}))
 					names = append(names, "unsub "+f)
 				default:
-					parts = append(parts, kit.EncPublish("h/a", []byte("x"), rg.Intn(3), false, false, id))
-					names = append(names, "publish")
+					// publishes, retained publishes and retained clears on prefix-related topics
+					t := []string{"h/a", "h", "h/a/b", "h/bb"}[rg.Intn(4)]
+					switch rg.Intn(3) {
+					case 0:
+						parts = append(parts, kit.EncPublish(t, []byte("x"), rg.Intn(3), false, false, id))
+						names = append(names, "publish "+t)
+					case 1:
+						parts = append(parts, kit.EncPublish(t, []byte("r"), rg.Intn(2), true, false, id))
+						names = append(names, "retain "+t)
+					default:
+						parts = append(parts, kit.EncPublish(t, nil, rg.Intn(2), true, false, id))
+						names = append(names, "clear "+t)
+					}
 				}
 			}
 			add(fmt.Sprintf("session:%v", names), cat(parts...))
@@ -346,6 +357,15 @@ func runC18(c *fw.Ctx) {
 		if i%2 == 1 {
 			lc.SendTimeout([]byte{0x10, 0x20, 0x00, 0x04, 'M', 'Q'}, 2*time.Second)
 		}
+		lingering = append(lingering, lc)
+	}
+	// connections that subscribed with requested QoS 3 (not a QoS) to everything and then just stay: whatever the
+	// broker makes of such a subscription, the other subscribers of the same topics keep being served
+	for i := 0; i < 3; i++ {
+		lc := n.Dial(fmt.Sprintf("qos3-%d", i))
+		lc.SendTimeout(kit.EncConnect(kit.ConnectOpts{ClientID: fmt.Sprintf("qos3-%d", i), KeepAlive: 3600, Clean: true}), 2*time.Second)
+		sub := kit.EncSubscribe(7, []string{"#", "witness/#", "witness/t"}, []int{3, 3, 3})
+		lc.SendTimeout(sub, 2*time.Second)
 		lingering = append(lingering, lc)
 	}
 	defer func() {
